@@ -37,7 +37,8 @@ def main():
         pids = meta.get("caught_by") or [meta.get("property", pid)[:3]]
         r = sh(["git", "-C", REPO, "apply", patch])
         if r.returncode != 0:
-            rows.append((name, "patch does not apply", ""))
+            rows.append((name, "NO-APPLY", "patch does not apply to the current tree"))
+            print("%-45s %-8s %s" % rows[-1], flush=True)
             continue
         try:
             res = []
